@@ -23,10 +23,15 @@ func VerifC06Include() {
 	vrtYamlFile(w+"/sub/inc.yaml", inc)
 	// .env of the included project: TAG also defined by the parent (parent wins), ONLYSUB only here
 	hasDotEnv := vrtChoice("dotenv", 2) == 1
+	pd := vrtChoice("project_directory", 5)
 	if hasDotEnv {
-		vrtFile(w+"/sub/.env", "TAG=fromsub\nONLYSUB=sub"+v+"\n")
+		if pd == 1 || pd == 2 {
+			// with an explicit project_directory the .env beside the included file is a decoy
+			vrtFile(w+"/sub/.env", "TAG=decoy\nONLYSUB=decoy\n")
+		} else {
+			vrtFile(w+"/sub/.env", "TAG=fromsub\nONLYSUB=sub"+v+"\n")
+		}
 	}
-	pd := vrtChoice("project_directory", 4)
 	long := map[string]any{"path": "sub/inc.yaml"}
 	baseDir := w + "/sub"
 	switch pd {
@@ -48,6 +53,15 @@ func VerifC06Include() {
 	var include any = []any{long}
 	if pd == 3 {
 		include = []any{"sub/inc.yaml"} // short syntax
+	}
+	chain := false
+	if pd == 4 {
+		// explicit env_file list: the second file derives a value from a variable that the parent
+		// environment and the first file both define (the parent's value must be used)
+		chain = true
+		long["env_file"] = []any{"sub/e1.env", "sub/e2.env"}
+		vrtFile(w+"/sub/e1.env", "TAG=frome1\n")
+		vrtFile(w+"/sub/e2.env", "ONLYSUB=d-${TAG}\n")
 	}
 	parentTag := vrtChoice("parentDefinesTAG", 2) == 1
 	env := types.Mapping{}
@@ -85,6 +99,13 @@ func VerifC06Include() {
 	only := "none"
 	if hasDotEnv {
 		only = "sub" + v
+	}
+	if chain {
+		if parentTag {
+			tag, only = "parent", "d-parent"
+		} else {
+			tag, only = "frome1", "d-frome1"
+		}
 	}
 	vrtAssert("included-interpolation-env", s["image"] == any("img-"+tag+"-"+only))
 	// the included env must not leak into the parent's own interpolation
